@@ -462,7 +462,10 @@ def gen_spec(rng, n, fmt, odd=False, ghosts=False, big=False, ml_props=False, sh
                 fid = rng.choice(free)
                 kind = "directory" if fid.startswith(b"d") else "symlink" if fid.startswith(b"l") else "file"
                 data = rng.choice(texts) if kind == "file" else rng.choice(TARGETS) if kind == "symlink" else None
-                ops.append(["add", fid, rng.choice(dirs), rng.choice(names), kind, data, rng.random() < 0.3])
+                ex = rng.random() < 0.4
+                if kind == "file" and ex and rng.random() < 0.4:
+                    data = rng.choice([b"\x00\xff\x01binary\n", b"\x00other binary"])      # executable AND binary
+                ops.append(["add", fid, rng.choice(dirs), rng.choice(names), kind, data, ex])
             elif r < 0.5 and files:
                 ops.append(["mod", rng.choice(files), rng.choice(texts)])
             elif r < 0.58 and links:
@@ -665,6 +668,15 @@ def run_btamper(inp):
         except Exception as e:   # noqa: BLE001
             return {"write_error": type(e).__name__}
         pos = inp["pos"] % len(text)
+        if inp.get("zone") == "old":
+            # only the sections of the OLDER revisions of a 0.8/0.9 bundle (they follow the target's section)
+            second = text.find(b"\n# message:", text.find(b"\n# message:") + 1)
+            if second > 0:
+                pos = second + inp["pos"] % (len(text) - second)
+        if inp.get("find"):
+            at = text.rfind(inp["find"])
+            if at >= 0:
+                pos = at + inp.get("off", 0)
         t = bytearray(text)
         if inp.get("cut"):
             pos = max(0, len(text) - inp["cut"])          # truncation: the last `cut` bytes are missing
